@@ -75,16 +75,16 @@ func MergeContexts(ctx1, ctx2 context.Context) (context.Context, context.CancelC
 	if ctx2 == bgContext {
 		return ctx1, noop
 	}
-	ctx, cancel := context.WithCancelCause(context.Background())
-	go func() {
-		select {
-		case <-ctx1.Done():
-			cancel(ctx1.Err())
-		case <-ctx2.Done():
-			cancel(ctx2.Err())
-		}
-	}()
-	return ctx, cancel
+	// Derive from ctx1 so that its values, deadline and cancellation are preserved, and also cancel when ctx2 is done.
+	// Stopping the AfterFunc on cancel ensures nothing is left behind once the returned CancelCauseFunc is called.
+	ctx, cancel := context.WithCancelCause(ctx1)
+	stop := context.AfterFunc(ctx2, func() {
+		cancel(ctx2.Err())
+	})
+	return ctx, func(cause error) {
+		stop()
+		cancel(cause)
+	}
 }
 
 // AppliesToAny returns true if any of the biPredicates evaluate to true for the values.
